@@ -623,6 +623,8 @@ def run(ctx: Context) -> None:
         "static analysis of the fermionic simulators: sibling agreement of the Fock gate steps on the adjacency test (dominance on "
         "the CFG), matrix-word derivation of the Gaussian passive update, congruence form, exclusion test dominance; clause-level "
         "claim - numerical agreement of the two representations is not decided"
+        "; further clauses: loop-invariant coefficients of adjacent-mode gates, the exterior-power recurrence, D and E read together, the "
+        "adjacency predicate looks at the elements"
     )
     clause_a(ctx)
     clause_b(ctx)
